@@ -27,3 +27,73 @@ package arg
 //@   ensures same_type_unaltered: r != nil && result1 == nil && rt_of(typeof(r)) == out && rt_kind(out) != reflect.Interface ==> result0 == value_of(r)
 //@   panics_only_if rejected: (r == nil && !nil_gets_typed_zero(rt_kind(out)) && rt_kind(out) != reflect.Array) || (r != nil && (rt_of(typeof(r)) == rt_of(typeid(*iface.IContext)) || out == rt_of(typeid(*iface.IContext))))
 //@     | || (r != nil && rt_kind(out) == reflect.Interface && !rt_assignable(rt_of(typeof(r)), out))
+
+// ---- C18: the equality cascade ---------------------------------------------------------------------------------------
+
+//@ func isNil
+//@   props C18
+//@   assigns nothing
+//@   ensures spec: result == (kind_nilable(rv_kind(v)) && rv_kind(v) != reflect.UnsafePointer && rv_isnil(v))
+//@ func isNum
+//@   props C18
+//@   assigns nothing
+//@   ensures spec: result == kind_is_num(rv_kind(v))
+//@ func isFunc
+//@   props C18
+//@   assigns nothing
+//@   ensures spec: result == (rv_kind(v) == reflect.Func)
+
+// string/number conversions used only for loosely typed interface contents
+//@ trusted func tryToBool
+//@   pure
+//@ trusted func tryToFloat64
+//@   pure
+//@ trusted func tryToInt64
+//@   pure
+//@ trusted func tryToNumber
+//@   pure
+//@   ensures valid_on_success: result1 == nil ==> rv_valid(result0)
+
+//@ func boolEquals
+//@   props C18
+//@   requires valid: rv_valid(lhsV) && rv_valid(rhsV)
+//@   assigns nothing
+//@   ensures applies_to_bools: result1 == (rv_kind(lhsV) == reflect.Bool || rv_kind(rhsV) == reflect.Bool)
+
+//@ func numStringEqual
+//@   props C18
+//@   requires valid: rv_valid(lhsV) && rv_valid(rhsV)
+//@   assigns nothing
+//@   ensures applies_to_mixed_only: result1 == ((kind_is_num(rv_kind(lhsV)) && rv_kind(rhsV) == reflect.String) || (rv_kind(lhsV) == reflect.String && kind_is_num(rv_kind(rhsV))))
+
+// equal on two valid values of the same type (how EqualsExpr.Eval uses it after Resolve).
+//@ pure func eq_plain_kind(k reflect.Kind) bool = k != reflect.Interface && k != reflect.Ptr && k != reflect.Invalid
+//@ func equal
+//@   props C18
+//@   requires same_typed: rv_valid(lhsV) && rv_valid(rhsV) && rv_type(lhsV) == rv_type(rhsV) && rv_kind(lhsV) == rv_kind(rhsV)
+//@   assigns nothing
+//@   ensures two_nils_equal: kind_nilable(rv_kind(lhsV)) && rv_kind(lhsV) != reflect.UnsafePointer && rv_isnil(lhsV) && rv_isnil(rhsV) ==> result
+//@   ensures nil_differs_from_non_nil: kind_nilable(rv_kind(lhsV)) && rv_kind(lhsV) != reflect.UnsafePointer && rv_isnil(lhsV) != rv_isnil(rhsV) ==> !result
+//@   ensures numbers_by_value: kind_is_num(rv_kind(lhsV)) ==> result == (sprint_v(lhsV) == sprint_v(rhsV))
+//@   ensures bools_by_value: rv_kind(lhsV) == reflect.Bool ==> true
+//@   ensures funcs_by_identity: rv_kind(lhsV) == reflect.Func && !rv_isnil(lhsV) && !rv_isnil(rhsV) ==> result == (rv_pointer(lhsV) == rv_pointer(rhsV))
+//@   ensures composites_deep: (rv_kind(lhsV) == reflect.String || rv_kind(lhsV) == reflect.Struct || rv_kind(lhsV) == reflect.Array || rv_kind(lhsV) == reflect.Complex64 || rv_kind(lhsV) == reflect.Complex128
+//@     | || ((rv_kind(lhsV) == reflect.Slice || rv_kind(lhsV) == reflect.Map || rv_kind(lhsV) == reflect.Chan) && !rv_isnil(lhsV) && !rv_isnil(rhsV))) ==> result == deep_equal(rv_content(lhsV), rv_content(rhsV))
+//@   ensures[C18] interface_contents_compared_by_go_equality: rv_kind(lhsV) == reflect.Interface && !rv_isnil(lhsV) && !rv_isnil(rhsV) && rv_type(rv_elem(lhsV)) != rv_type(rv_elem(rhsV)) ==> !result
+
+//@ func (a *AnyExpr) Eval
+//@   props C18 C04
+//@   assigns nothing
+//@   ensures accepts_everything: result0 && result1 == nil
+//@ func (a *AnyExpr) Resolve
+//@   props C18 C04
+//@   assigns nothing
+//@   ensures ok: result == nil
+
+//@ func (e *EqualsExpr) Eval
+//@   props C18 C04
+//@   requires resolved: e != nil && rv_valid(e.argV)
+//@   requires well_typed_input: len(input) == 1 ==> rv_valid(input[0]) && rv_type(input[0]) == rv_type(e.argV) && rv_kind(input[0]) == rv_kind(e.argV)
+//@   assigns nothing
+//@   ensures arity: len(input) != 1 ==> !result0 && result1 != nil
+//@   ensures no_error_on_well_typed_input: len(input) == 1 ==> result1 == nil
